@@ -37,7 +37,17 @@ var privateUseAlgs = []int64{-65536, -65537, -70000, 0x7fffffff, -1 << 40, 1 << 
 // c04AlgValue draws the alg header value.  kind: "match", "other-builtin",
 // "private", "text", "wrongtype", "absent".
 func c04AlgValue(t *tape.Tape, signerAlg int64) (item *refcbor.Item, kind string) {
-	switch t.Pick([]int{5, 3, 2, 1, 1, 4}, "c04.algkind") {
+	switch t.Pick([]int{5, 3, 2, 1, 1, 4, 1}, "c04.algkind") {
+	case 6:
+		// an unsigned value that equals the signer's algorithm modulo 2^64
+		// (or 2^32): a Go caller's uint64 / a peer's 8-byte unsigned integer
+		if signerAlg < 0 {
+			if t.Bool(1, 2, "c04.alg.wrap32") {
+				return refcbor.Uint(uint64(uint32(int32(signerAlg)))), "wrapping-uint"
+			}
+			return refcbor.Uint(uint64(signerAlg)), "wrapping-uint"
+		}
+		return refcbor.Int(-signerAlg), "other-int"
 	case 0:
 		return refcbor.Int(signerAlg), "match"
 	case 1:
@@ -150,6 +160,9 @@ func c04Constructed(r *Run) {
 		signerAlg = privateUseAlgs[t.Choose(len(privateUseAlgs), "c04.signer.private")]
 	}
 	algItem, algKind := c04AlgValue(t, signerAlg)
+	if algKind == "wrapping-uint" {
+		r.Probe("alg-value-unsigned-congruent-to-signer-alg")
+	}
 	external := genExternal(t)
 	lo := LayerOpts{MaxExtra: 3, AlgItem: algItem}
 	targets := []string{"Sign1Message", "UntaggedSign1Message", "Signature", "SignMessage", "Countersignature", "Sign1()", "Sign1Untagged()", "SignHashEnvelope()"}
@@ -192,24 +205,25 @@ func c04Constructed(r *Run) {
 		helperOut []byte
 		isHelper  bool
 		verify    func(v cose.Verifier, ext []byte) error
+		attempt   func()
 	)
 	switch target {
 	case "Sign1Message", "UntaggedSign1Message":
 		m := &cose.Sign1Message{Headers: h, Payload: payload}
 		hdrs = &m.Headers
 		if target == "Sign1Message" {
-			r.Lib(func() { signErr = m.Sign(ent, external, spy) })
+			attempt = func() { r.Lib(func() { signErr = m.Sign(ent, external, spy) }) }
 			verify = func(v cose.Verifier, ext []byte) error { return m.Verify(ext, v) }
 		} else {
 			u := (*cose.UntaggedSign1Message)(m)
-			r.Lib(func() { signErr = u.Sign(ent, external, spy) })
+			attempt = func() { r.Lib(func() { signErr = u.Sign(ent, external, spy) }) }
 			verify = func(v cose.Verifier, ext []byte) error { return u.Verify(ext, v) }
 		}
 	case "Signature":
 		s := &cose.Signature{Headers: h}
 		hdrs, tbsIdx = &s.Headers, 2
 		body := []byte{0x40}
-		r.Lib(func() { signErr = s.Sign(ent, spy, body, payload, external) })
+		attempt = func() { r.Lib(func() { signErr = s.Sign(ent, spy, body, payload, external) }) }
 		verify = func(v cose.Verifier, ext []byte) error { return s.Verify(v, body, payload, ext) }
 	case "SignMessage":
 		// the governed layer is the second signature; the first one is signed
@@ -221,7 +235,11 @@ func c04Constructed(r *Run) {
 			Signatures: []*cose.Signature{{Headers: libHeaders(l0, Spelling{T: t}, true)}, {Headers: h}}}
 		hdrs, tbsIdx = &m.Signatures[1].Headers, 2
 		s0 := r.signerFor(k0, false)
-		r.Lib(func() { signErr = m.Sign(ent, external, s0, spy) })
+		attempt = func() {
+			// (a retry starts from the unsigned message again)
+			m.Signatures[0].Signature = nil
+			r.Lib(func() { signErr = m.Sign(ent, external, s0, spy) })
+		}
 		// position 0 accepts without looking so that position 1 is always reached
 		v0 := &SpyVerifier{Alg: cose.Algorithm(a0), Fault: "accept"}
 		verify = func(v cose.Verifier, ext []byte) error { return m.Verify(ext, v0, v) }
@@ -229,14 +247,14 @@ func c04Constructed(r *Run) {
 		parent := c04Parent(r, ent)
 		cs := &cose.Countersignature{Headers: h}
 		hdrs, tbsIdx = &cs.Headers, 2
-		r.Lib(func() { signErr = cs.Sign(ent, spy, parent, external) })
+		attempt = func() { r.Lib(func() { signErr = cs.Sign(ent, spy, parent, external) }) }
 		verify = func(v cose.Verifier, ext []byte) error { return cs.Verify(v, parent, ext) }
 	case "Sign1()":
 		isHelper = true
-		r.Lib(func() { helperOut, signErr = cose.Sign1(ent, spy, h, payload, external) })
+		attempt = func() { r.Lib(func() { helperOut, signErr = cose.Sign1(ent, spy, h, payload, external) }) }
 	case "Sign1Untagged()":
 		isHelper = true
-		r.Lib(func() { helperOut, signErr = cose.Sign1Untagged(ent, spy, h, payload, external) })
+		attempt = func() { r.Lib(func() { helperOut, signErr = cose.Sign1Untagged(ent, spy, h, payload, external) }) }
 	case "SignHashEnvelope()":
 		isHelper = true
 		external = nil
@@ -250,13 +268,29 @@ func c04Constructed(r *Run) {
 			r.Probe("envelope-with-stale-raw-protected")
 		}
 		hp := cose.HashEnvelopePayload{HashAlgorithm: cose.AlgorithmSHA256, HashValue: t.Bytes(32, "env.digest")}
-		r.Lib(func() { helperOut, signErr = cose.SignHashEnvelope(ent, spy, h, hp) })
+		attempt = func() { r.Lib(func() { helperOut, signErr = cose.SignHashEnvelope(ent, spy, h, hp) }) }
 	}
+	attempt()
 	exp := c04Expectation(algItem, signerAlg, external)
 	calls := len(spy.Calls)
 	r.Logf("sign: err=%s calls=%d", errTag(signErr), calls)
 	r.Check()
 	sigFacts := "/" + target + "/alg=" + algKind + "/label-spelling=" + spell
+	if signErr != nil && calls == 0 && t.Bool(1, 2, "c04.retry") {
+		// the caller tries again with the very same objects (a retry loop
+		// around a signing service): a refused attempt must not have changed
+		// anything that makes the next one pass
+		for i, n := 0, 1+t.Choose(2, "c04.retry.n"); i < n && signErr != nil && len(spy.Calls) == 0; i++ {
+			helperOut = nil
+			attempt()
+			r.Fired("sign.retry-after-refusal")
+		}
+		calls = len(spy.Calls)
+		r.Logf("retry: err=%s calls=%d", errTag(signErr), calls)
+		if signErr == nil || calls > 0 {
+			sigFacts += "/on-retry"
+		}
+	}
 	if exp.mustFail {
 		if signErr == nil || calls > 0 {
 			r.Fail("sign-proceeds-on-alg-mismatch"+sigFacts,
